@@ -164,4 +164,11 @@ theorem mixinContains_iff (y : Cont) (x : Obj) :
     · intro h; cases h
     · rintro ⟨h, _⟩; exact absurd h.symm hver
 
+/-- the class's own `__contains__`, for either container class -/
+theorem contains_own_iff (y : Cont) (x : Obj) (hy : y.WF) (hx : x.WF) :
+    contains y x = true ↔ (x.ver = y.ver ∧ y.first ≤ x.first ∧ x.last ≤ y.last) := by
+  cases y with
+  | net n => exact netContains_iff n x hy hx
+  | rng r => exact rngContains_iff r x hx
+
 end NV.Contains
